@@ -34,6 +34,7 @@ class ConcStop(BaseException):
 
 
 _CTX = None
+_MISSING = object()
 
 
 def ctx():
@@ -680,6 +681,7 @@ class Result:
         self.reach = {}  # label -> reachable witness found
         self.validated = 0
         self.validation_mismatch = []
+        self.conc_claim_failures = []
         self.wall_s = 0.0
         self.error = None
         self.functions = []
@@ -763,12 +765,17 @@ class Ctx:
 
     def restore_patches(self):
         for m, k, old in reversed(self.patches):
-            setattr(m, k, old)
+            if old is _MISSING:
+                delattr(m, k)
+            else:
+                setattr(m, k, old)
         self.patches = []
 
     def patch(self, obj, attr, new):
         """rebinding of a module global for the duration of this path (both modes if asked)"""
-        old = getattr(obj, attr)
+        old = obj.__dict__.get(attr, _MISSING) if hasattr(obj, "__dict__") else getattr(obj, attr)
+        if old is _MISSING and not isinstance(obj, type(math)):
+            old = getattr(obj, attr)
         self.patches.append((obj, attr, old))
         setattr(obj, attr, new)
 
